@@ -106,7 +106,7 @@ func (e *Enc) instr(in ssa.Instruction) {
 		el := x.Type().Underlying().(*types.Slice).Elem()
 		es := e.sortOf(el)
 		r := e.allocRef("mkslice")
-		k := e.arrKey(es)
+		k := e.arrKeyT(el)
 		e.set(k, store(e.get(e.st, k), r, fmt.Sprintf("((as const (Array Int %s)) %s)", es, e.w.so.zeroSort(es))))
 		e.setVal(x, fmt.Sprintf("(mkslice %s %s)", r, n))
 	case *ssa.MakeMap:
@@ -698,7 +698,7 @@ func (e *Enc) slice(x *ssa.Slice) {
 		}
 		es := e.sortOf(t.Elem())
 		r := e.allocRef("reslice")
-		k := e.arrKey(es)
+		k := e.arrKeyT(t.Elem())
 		old := sel(e.get(e.st, k), "(sbase "+s.S+")")
 		a := e.fresh("resl", "(Array Int "+es+")")
 		e.assert(fmt.Sprintf("(forall ((i Int)) (! (=> (and (<= 0 i) (< i (- %s %s))) (= (select %s i) (select %s (+ %s i)))) :pattern ((select %s i))))", hi, lo, a, old, lo, a))
@@ -715,9 +715,8 @@ func (e *Enc) slice(x *ssa.Slice) {
 		} else {
 			hi = n
 		}
-		es := e.sortOf(arr.Elem())
 		r := e.allocRef("arrslice")
-		k := e.arrKey(es)
+		k := e.arrKeyT(arr.Elem())
 		if lo != "0" {
 			e.flag("array-slice-offset")
 			e.havocVal(x)
